@@ -47,6 +47,8 @@ def correspondence(ctx):
         h = hexs([ctx.rng.choice(pool) for _ in range(n)])
         prof = ctx.rng.choice(['um', 'up', 'op', 'nick'])
         cases.append(f'prof|{prof}|enforce|f|b|{h}|')
+    for s_ in long_strings(ctx, alpha + CASED + WIDE + COMPAT + DECOMP + CTX, (60 if ctx.tier == 'quick' else 3000), 40, 600):
+        cases.append(f'prof|{ctx.rng.choice(["um", "up", "op", "nick"])}|enforce|f|b|{hexs(s_)}|')
     res = run_cases(cases, ctx.work)
 
     def nontrivial(case, impl):
